@@ -5,6 +5,6 @@ CONSTANTS
     BatchIds = {1, 2, 3, 4, 6, 7}
     Dev = {}
     FieldBytes <- McFieldBytes
-    NormOf <- McNormOf
+    NormTable <- McNormTable
 INVARIANT Emit
 CHECK_DEADLOCK FALSE
